@@ -104,7 +104,13 @@ def check(ctx):
     # thread target / args
     call = cnode.ast.value
     kw = {k.arg: k.value for k in call.keywords}
-    ctx.inst('R1', ps, 'thread-target', 'target' in kw and norm(kw['target']) == 'self._thread_function_wrapper',
+    tgt0 = kw.get('target')
+    if isinstance(tgt0, ast.Name):
+        b0 = [s_.value for s_ in walk_own(ps.node) if isinstance(s_, ast.Assign) and len(s_.targets) == 1 and norm(s_.targets[0]) == tgt0.id]
+        tgt0 = b0[0] if len(b0) == 1 else tgt0
+    if isinstance(tgt0, ast.Call) and norm(tgt0.func) in ('partial', 'functools.partial') and tgt0.args:
+        tgt0 = tgt0.args[0]                    # the wrapper with its first arguments bound (they are accounted for under thread-args-layout)
+    ctx.inst('R1', ps, 'thread-target', tgt0 is not None and norm(tgt0) == 'self._thread_function_wrapper',
              'threads must run the reporting wrapper; target=%s' % (norm(kw['target']) if 'target' in kw else None))
 
     # ---- R4 (argument assembly) ---------------------------------------------
@@ -130,16 +136,36 @@ def check(ctx):
         for e in p.calls():
             if norm(e.node.func) == '%s[0]' % va:
                 fcalls.append(norm(e.node))
+    import re as _re
+    fcalls = [_re.sub(r'\bislice\((\w+), (\d+), None\)', r'\1[\2:]', t_) for t_ in fcalls]          # islice(args, 2, None) spreads args[2:]
     ok_w = sorted(set(fcalls)) == ['%s[0](*%s[2:])' % (va, va)]
     # list built by parallel_safe
     pps, _ = paths_of(ps)
     targs = set()
+    eff_targets = set()
     for p in pps:
         for e in p.events:
             if e.kind == 'call' and dotted(e.node.func) in ('Thread', 'threading.Thread'):
-                for k in e.node.keywords:
-                    if k.arg == 'args':
-                        targs.add(norm(e.expanded(k.value)))
+                kws = {k.arg: e.expanded(k.value) for k in e.node.keywords}
+                tgt_, args_ = kws.get('target'), kws.get('args')
+                pre = []
+                # target=partial(W, a, b), args=X   is   target=W, args=[a, b] + X
+                if isinstance(tgt_, ast.Name):
+                    b_ = [s_.value for s_ in walk_own(ps.node) if isinstance(s_, ast.Assign) and len(s_.targets) == 1 and norm(s_.targets[0]) == tgt_.id]
+                    tgt_ = b_[0] if len(b_) == 1 else tgt_
+                if isinstance(tgt_, ast.Call) and norm(tgt_.func) in ('partial', 'functools.partial') and tgt_.args and not tgt_.keywords:
+                    pre = [norm(a_) for a_ in tgt_.args[1:]]
+                    tgt_ = tgt_.args[0]
+                eff_targets.add(norm(tgt_) if tgt_ is not None else None)
+                if args_ is not None:
+                    t_ = norm(args_)
+                    # [a, b, *X] (a list extended by X) is [a, b] + X
+                    mt_ = _re.match(r'^\[(.*), \*(self\._process_args_dict\(.*\))\]$', t_)
+                    if mt_:
+                        t_ = '[%s] + %s' % (mt_.group(1), mt_.group(2))
+                    if pre:
+                        t_ = '[%s] + %s' % (', '.join(pre), t_)
+                    targs.add(t_)
     pars = ps.params
     tnames = [norm(x) for x in cloop.ast.target.elts] if isinstance(cloop.ast.target, ast.Tuple) else []
     ctx.need(len(tnames) == 2, 'member loop target is not (uri, scf)')
@@ -309,6 +335,12 @@ def check(ctx):
     lam = [c for c in walk_own(ol.node) if method_call(c, 'parallel_safe')]
     cp = callable_parts(m.cls(SW, 'Swarm'), lam[0].args[0], ol) if len(lam) == 1 and lam[0].args else None      # a lambda or a small method of the class
     okl = cp is not None and any(method_call(c, 'open_link') and norm(c.func.value) == cp[0] for b_ in cp[1] for c in ast.walk(b_))
+    if not okl and len(lam) == 1 and lam[0].args:
+        # operator.methodcaller('open_link') - directly or under a module-level name - calls .open_link() on its argument
+        a0 = lam[0].args[0]
+        if isinstance(a0, ast.Name) and a0.id in m.mod(SW).consts:
+            a0 = m.mod(SW).consts[a0.id]
+        okl = isinstance(a0, ast.Call) and norm(a0.func) in ('methodcaller', 'operator.methodcaller') and [norm(x_) for x_ in a0.args] == ["'open_link'"] and not a0.keywords
     ctx.inst('R5', ol, 'opens-every-member', bool(okl), 'open_links must open every member through parallel_safe(lambda scf: scf.open_link())')
     cl = m.func(SW, 'Swarm.close_links')
     gc = cfg_of(cl)
